@@ -144,6 +144,15 @@ def run(chk, binary):
             verb = c.get("verb") or ""
             before, after = c["before"], c["after"]
             name = regname(c)
+            # the register typed in front of the command is the register the command works with
+            typed = re.match(r'\d*"([a-zA-Z])\d*([a-zA-Z])', cmd)
+            opverb = {"d": "Delete", "x": "Delete", "X": "Delete", "D": "Delete", "c": "Change", "s": "Change", "S": "Change", "C": "Change",
+                      "y": "Yank", "Y": "Yank", "p": "Put", "P": "Put"}.get(typed.group(2)) if typed else None
+            firstverb = next((x for x in st["cmds"] if x.get("verb")), None)
+            if opverb and c is firstverb and verb.startswith(opverb):
+                if name != typed.group(1):
+                    chk.violation("spec:the command did not use the register it was given", dict(case0, typed_register=typed.group(1), used_register=name, verb=verb))
+                    continue
             upper = name is not None and name.isupper()
             if "BlockRange" in (c.get("motion") or "") or "Block" in (st.get("last_selection") or "") and cls == "vdel":
                 continue
